@@ -18,6 +18,15 @@ def T(quick, thorough, floor=200, **kw):
 
 
 PROPS = {
+    "C14": T(2500, 60000, sites=["acyclic_reorder", "acyclic_no_reorder"],
+             rule="operation histories on Acyclic<DiGraph<u32,u32,Ix>> and Acyclic<StableDiGraph<..>> (4 index widths; 20-250 ops: add_node, "
+                  "try_add_edge / try_update_edge / Build::add_edge / Build::update_edge between random live pairs (self-loops, "
+                  "cycle-closing and order-violating edges frequent), remove_edge present/absent, remove_node preferring non-last "
+                  "nodes, removal of already removed / out-of-range nodes, clone; 1/3 start from try_from_graph/TryFrom on a random "
+                  "digraph; 8 late insertions at the end) against an index-free DAG model on unique weights; after every operation: "
+                  "inner graph == model, acyclicity, nodes_iter/get_position/at_position/range invariants, raw order maps via the "
+                  "verif-hooks exporter; is_valid_edge must predict every verdict; non-trivial = >=10 ops, >=1 removal of a non-last "
+                  "node, >=1 edge at the end; distinct = hash of (type config, op-kind sequence, final edge set)"),
     "C04": T(700, 18000, sites=["matrix_grow_overlapping", "matrix_grow_nonoverlapping", "matrix_id_reused", "matrix_id_fresh"],
              t={"legs": ["debug", "release", "asan", "miri"], "asan_cases_per_shard": 2000, "miri_cases_per_shard": 3},
              rule="operation histories on MatrixGraph<u32,i32,_,Ty,Null,Ix> (directed/undirected x Option/NotZero x u8/u16/u32/usize; "
